@@ -33,7 +33,15 @@ func survivingHistory(cfg Cfg, hist []Op) (surv []Op, rolledBack bool) {
 				}
 			}
 		case OpRollback:
-			surv = surv[:mark]
+			// the uncommitted writes since the working tree was last replaced are dropped; prunings and other
+			// operations in between stay
+			kept := append([]Op{}, surv[:mark]...)
+			for _, o := range surv[mark:] {
+				if o.Kind != OpSet && o.Kind != OpRemove && o.Kind != OpSetNil {
+					kept = append(kept, o)
+				}
+			}
+			surv = kept
 			rolledBack = true
 		case OpLVFO, OpDelFrom:
 			at, known := survAt[op.Ver]
